@@ -202,7 +202,7 @@ def leaf(draw, ctx: Ctx, vars_: List[int]):
     if cfg.allow_truth:
         kinds += ["big", "atleast", "starts", "tval", "tval"]
     if cfg.allow_preds:
-        kinds += ["fpred1", "fpred1r", "cpred1", "hastype"]
+        kinds += ["fpred1", "fpred1r", "fpred1d", "cpred1", "hastype"]
     if cfg.allow_preds and cfg.allow_truth:
         kinds += ["heavy"]
     if cfg.allow_preds and cfg.allow_any:
@@ -263,6 +263,9 @@ def leaf(draw, ctx: Ctx, vars_: List[int]):
         return ["truth", ["attr", e, what]]
     if k == "fpred1":
         return ["fpred", "p_a_ge", [["var", x], ["const", draw(st.sampled_from(P["ints"]))]]]
+    if k == "fpred1d":
+        # a defaulted parameter: passed positionally, or left out (the default applies)
+        return ["fpred", "p_a_ge_dflt", [["var", x]] + ([["const", draw(st.sampled_from(P["ints"]))]] if chance(draw, 3, 4) else [])]
     if k == "fpred1r":
         # the variable is not the first argument: the arguments before it are constants
         return ["fpred", "p_n_le_a", [["const", draw(st.sampled_from(P["ints"]))], ["var", x]]]
